@@ -119,8 +119,12 @@ type chChain struct {
 	ValsAt   map[int64]map[int]int64 // key index -> power
 	ParamsAt map[int64]chModelParams
 	// store heights observed after every SaveBlock
-	StoreHeights []int64
+	StoreHeights   []int64
 	UpdatesDropped int
+	// heights at which the state store persists the full validator set
+	// (documented in saveValidatorsInfo: the height a change takes effect, and
+	// every checkpoint height); all other heights are reconstructed on load
+	FullSetAt map[int64]bool
 }
 
 func chTxBytes(t ChTx) types.Tx {
@@ -236,9 +240,9 @@ func chSign(chainID string, k int, v *types.Vote) {
 	v.Signature = sig
 }
 
-// chBuild executes the specification. onBlock (optional) sees every block
-// right before it is applied, together with the state it must validate against.
-func chBuild(spec ChSpec, onBlock func(st sm.State, b *types.Block) error) (*chChain, error) {
+// chGenesis builds the genesis state of a specification together with the
+// harness model of its validators and parameters.
+func chGenesis(spec ChSpec) (sm.State, map[int]int64, chModelParams, error) {
 	gvals := make([]types.GenesisValidator, len(spec.Vals))
 	model := map[int]int64{}
 	for i, v := range spec.Vals {
@@ -260,11 +264,21 @@ func chBuild(spec ChSpec, onBlock func(st sm.State, b *types.Block) error) (*chC
 	}
 	state, err := sm.MakeGenesisState(gen)
 	if err != nil {
-		return nil, fmt.Errorf("generator produced an invalid genesis: %v", err)
+		return sm.State{}, nil, chModelParams{}, fmt.Errorf("generator produced an invalid genesis: %v", err)
 	}
 	state.AppVersion = spec.AppVersion // as the handshaker does after ABCI Info
+	return state, model, mp, nil
+}
+
+// chBuild executes the specification. onBlock (optional) sees every block
+// right before it is applied, together with the state it must validate against.
+func chBuild(spec ChSpec, onBlock func(st sm.State, b *types.Block) error) (*chChain, error) {
+	state, model, mp, err := chGenesis(spec)
+	if err != nil {
+		return nil, err
+	}
 	ch := &chChain{Spec: spec, Genesis: state.Copy(), StateDB: memdb.NewMemDB(), BlockDB: memdb.NewMemDB(),
-		ValsAt: map[int64]map[int]int64{}, ParamsAt: map[int64]chModelParams{}}
+		ValsAt: map[int64]map[int]int64{}, ParamsAt: map[int64]chModelParams{}, FullSetAt: map[int64]bool{}}
 	sm.SaveState(ch.StateDB, state)
 	ch.Store = store.NewBlockStore(ch.BlockDB)
 
@@ -279,6 +293,7 @@ func chBuild(spec ChSpec, onBlock func(st sm.State, b *types.Block) error) (*chC
 	ih := state.InitialHeight
 	ch.ValsAt[ih], ch.ValsAt[ih+1] = chCopyVals(model), chCopyVals(model)
 	ch.ParamsAt[ih] = mp
+	ch.FullSetAt[ih] = true
 	lastCommit := types.NewCommit(types.BlockID{}, nil)
 	for bi := range spec.Blocks {
 		b := &spec.Blocks[bi]
@@ -310,6 +325,9 @@ func chBuild(spec ChSpec, onBlock func(st sm.State, b *types.Block) error) (*chC
 			return ch, fmt.Errorf("ApplyBlock(height %d) of an honestly built block failed: %v", h, err)
 		}
 		ch.ValsAt[h+2] = nextVals
+		if len(kept) > 0 {
+			ch.FullSetAt[h+2] = true
+		}
 		ch.ParamsAt[h+1] = chApplyParams(ch.ParamsAt[h], b.Params)
 
 		// precommits of the validators in effect at h
@@ -434,9 +452,6 @@ func chDraw(rt *rapid.T, o chGenOpts) ChSpec {
 		for j := 0; j < ntx; j++ {
 			t := ChTx{Size: rapid.IntRange(0, 40).Draw(rt, "txsize"), Seed: rapid.IntRange(0, 50).Draw(rt, "txseed"),
 				Fail: rapid.IntRange(0, 4).Draw(rt, "txfail") == 0, Data: rapid.SampledFrom([]int{0, 0, 1, 8}).Draw(rt, "txdata")}
-			if o.BigTxs && rapid.IntRange(0, 30).Draw(rt, "txbig") == 0 {
-				t.Size = rapid.SampledFrom([]int{65000, 66000, 140000}).Draw(rt, "txbigsize")
-			}
 			b.Txs = append(b.Txs, t)
 		}
 		b.Round = rapid.SampledFrom([]int{0, 0, 0, 1, 2, 7}).Draw(rt, "round")
@@ -461,6 +476,10 @@ func chDraw(rt *rapid.T, o chGenOpts) ChSpec {
 		b.App = rapid.SampledFrom([]int{0, 1, 2, 3, 77}).Draw(rt, "app")
 		s.Blocks = append(s.Blocks, b)
 	}
+	if o.BigTxs && rapid.IntRange(0, 2).Draw(rt, "hasbig") == 0 { // one multi-part block
+		i := rapid.IntRange(0, nb-1).Draw(rt, "bigat")
+		s.Blocks[i].Txs = append(s.Blocks[i].Txs, ChTx{Size: rapid.SampledFrom([]int{65000, 66000, 140000}).Draw(rt, "bigsize"), Seed: 1})
+	}
 	return s
 }
 
@@ -475,4 +494,39 @@ func chSortedKeys(m map[int]int64) []int {
 		return a.Compare(b) < 0
 	})
 	return ks
+}
+
+// chSync replays the chain's blocks into a fresh node the way block sync does:
+// the +2/3 commit for a block (carried by the next block's LastCommit, or the
+// seen commit for the tip) is verified against the validators in effect, then
+// the block is applied. It returns the final state of the syncing node.
+func chSync(ch *chChain) (sm.State, error) {
+	state, _, _, err := chGenesis(ch.Spec)
+	if err != nil {
+		return state, err
+	}
+	db := memdb.NewMemDB()
+	sm.SaveState(db, state)
+	app := &chApp{}
+	conns := appconn.NewAppConns(proxy.NewLocalClientCreator(app))
+	if err := conns.Start(); err != nil {
+		return state, err
+	}
+	defer conns.Stop()
+	exec := sm.NewBlockExecutor(db, log.NewNoopLogger(), conns.Consensus(), mock.Mempool{})
+	for i, st := range ch.Steps {
+		commit := st.Commit
+		if i+1 < len(ch.Steps) {
+			commit = ch.Steps[i+1].Block.LastCommit
+		}
+		if err := state.Validators.VerifyCommit(ch.Spec.ChainID, st.BlockID, st.Height, commit); err != nil {
+			return state, fmt.Errorf("block sync: VerifyCommit of the honest commit for block %d: %v", st.Height, err)
+		}
+		app.cur, app.updates, app.params = &ch.Spec.Blocks[i], st.Resp.ValidatorUpdates, st.Resp.ConsensusParams
+		state, err = exec.ApplyBlock(state, st.BlockID, st.Block)
+		if err != nil {
+			return state, fmt.Errorf("block sync: ApplyBlock(%d): %v", st.Height, err)
+		}
+	}
+	return state, nil
 }
